@@ -1772,7 +1772,7 @@ class ElimInfInterval(Rule):
             # INT x:[a,oo]. body => lim t->oo. INT x:[a,t]. body
             return gen_lim_expr(new_var, inf, lower, Var(new_var))
         elif upper == neg_inf and lower != neg_inf and lower != inf:
-            return gen_lim_expr(new_var, inf, lower, Var(new_var))
+            return gen_lim_expr(new_var, neg_inf, lower, Var(new_var))
         elif upper != inf and upper != neg_inf and lower == neg_inf:
             # INT x:[-oo,a]. body => lim t->-oo. INT x:[t,a]. body
             return gen_lim_expr(new_var, neg_inf, Var(new_var), upper)
